@@ -315,6 +315,10 @@ func Make(verifDir, repoDir string, want Want) (*Tree, error) {
 // Close removes the scratch world.
 func (t *Tree) Close() {
 	if t != nil && t.Root != "" {
+		if os.Getenv("VERIF_KEEP_SCRATCH") != "" {
+			fmt.Fprintf(os.Stderr, "verif: keeping scratch world %s\n", t.Root)
+			return
+		}
 		os.RemoveAll(t.Root)
 	}
 }
